@@ -9,6 +9,7 @@ CORE = [M + "/ptrify", M + "/common", "strings", "unicode/utf8", "strconv", "go/
 SW = [M, M + "/ptrify", M + "/common", M + "/transform", M + "/parse", "strings", "unicode/utf8", "strconv", "go/token"]
 ENVP = [M, M + "/ptrify", M + "/common", M + "/transform", M + "/parse", M + "/tagformat", M + "/tagformat/caseconversion", M + "/helper",
         "github.com/fatih/structtag", "strings", "unicode/utf8", "strconv", "go/token", "text/scanner", "bytes", "io"]
+FLAGP = ENVP + [M + "/sources/flag/flaghelper", "flag", "sort"]
 TEXT = ["strings", "unicode/utf8", "strconv", "text/scanner", "bytes", "io", "go/token"]
 
 COMMON_ASSUME = [
@@ -171,11 +172,11 @@ CHECKS = {
             {"entry": M + "/sources/env.HarnessC11Prefix", "pkgs": ENVP, "must_reach": ["c11-end", "c11-error"], "tiers": ["thorough"]},
         ],
     },
-    "C16T": {
+    "C12": {
         "runs": [
-            {"entry": M + "/sources/env.HarnessC16EnvNamedScalars", "pkgs": ENVP + ["sort"], "must_reach": ["c16-types-end"]},
-            {"entry": M + "/sources/env.HarnessC16EnvNamedCollections", "pkgs": ENVP + ["sort"], "must_reach": ["c16-types-end"]},
-            {"entry": M + "/sources/env.HarnessC16EnvPointers", "pkgs": ENVP + ["sort"], "must_reach": ["c16-types-end"]},
+            {"entry": M + "/sources/flag.HarnessC12Scalars", "pkgs": FLAGP, "must_reach": ["c12-end", "c12-error"]},
+            {"entry": M + "/sources/flag.HarnessC12Collections", "pkgs": FLAGP, "must_reach": ["c12-end", "c12-error"]},
+            {"entry": M + "/sources/flag.HarnessC12All", "pkgs": FLAGP, "must_reach": ["c12-end", "c12-error"], "tiers": ["thorough"]},
         ],
     },
     "C14": {
@@ -210,6 +211,10 @@ CHECKS = {
             {"entry": PARSE + ".HarnessC16ParseTextQuick", "pkgs": TEXT, "must_reach": ["c16-text-end"], "loopcap": 300, "tiers": ["quick"]},
             {"entry": CC + ".HarnessC16DecodeQuick", "pkgs": LIBS + ["go/token"], "must_reach": ["c16-decode-end"], "loopcap": 300, "tiers": ["quick"]},
             {"entry": CC + ".HarnessC16EncodeQuick", "pkgs": LIBS + ["go/token"], "must_reach": ["c16-encode-end"], "loopcap": 300, "tiers": ["quick"]},
+            {"entry": PARSE + ".HarnessC16MapKV", "pkgs": TEXT, "must_reach": ["c16-mapkv-end"], "loopcap": 300},
+            {"entry": M + "/sources/env.HarnessC16EnvNamedScalars", "pkgs": ENVP + ["sort"], "must_reach": ["c16-types-end"]},
+            {"entry": M + "/sources/env.HarnessC16EnvNamedCollections", "pkgs": ENVP + ["sort"], "must_reach": ["c16-types-end"]},
+            {"entry": M + "/sources/env.HarnessC16EnvPointers", "pkgs": ENVP + ["sort"], "must_reach": ["c16-types-end"]},
             {"entry": PARSE + ".HarnessC16ParseTextThorough", "pkgs": TEXT, "must_reach": ["c16-text-end"], "loopcap": 300, "tiers": ["thorough"]},
             {"entry": CC + ".HarnessC16DecodeThorough", "pkgs": LIBS + ["go/token"], "must_reach": ["c16-decode-end"], "loopcap": 300, "tiers": ["thorough"], "workers": 16},
             {"entry": CC + ".HarnessC16EncodeThorough", "pkgs": LIBS + ["go/token"], "must_reach": ["c16-encode-end"], "loopcap": 300, "tiers": ["thorough"]},
